@@ -11,7 +11,7 @@ with the rendering of one value.  Text travels hex-encoded (UTF-8).
   ctx <0|1 rewrite> <m> (<name-hex> <value>)*m                 -> ok
   call <n> <value>*n <m> (<name-hex> <value>)*m                -> key=<hex|E> path=<F|S|E> b=<bound|E> p=<bound|E> d=<bound|E> q=<bound|E>
   text <value>                                                 -> fast=<hex> slow=<hex> sty=<scalar type|->
-  value := s:<hex> | i:<int> | b:0 | b:1 | n | y:<hex> | t:<n> value*n | d:<n> (k:<key-hex> value)*n
+  value := s:<hex> | i:<int> | b:0 | b:1 | n | y:<hex> | t:<n> value*n | d:<n> (k:<key-hex> value)*n | e:<n> value*n  (set, iteration order)
 -/
 open CashewsVerif CashewsVerif.Proto CashewsVerif.KeyModel
 
@@ -59,6 +59,10 @@ def parseVal : Nat → List String → Option (PyVal × List String)
         let n ← n.toNat?
         let (kvs, rest') ← manyKv fuel n rest
         pure (.dict kvs, rest')
+      | ["e", n] => do
+        let n ← n.toNat?
+        let (vs, rest') ← many fuel n rest
+        pure (.set vs, rest')
       | _ => none
 where
   many (fuel : Nat) : Nat → List String → Option (List PyVal × List String)
@@ -139,6 +143,7 @@ mutual
     | .bytes bs => ["y:" ++ String.ofList (hexOf bs)]
     | .tuple vs => ("t:" ++ toString vs.length) :: encVals vs
     | .dict kvs => ("d:" ++ toString kvs.length) :: encKvs kvs
+    | .set vs => ("e:" ++ toString vs.length) :: encVals vs
   def encVals : List PyVal → List String
     | [] => []
     | v :: r => encVal v ++ encVals r
@@ -158,7 +163,7 @@ def encBound : Option Bound → String
 
 def scalarTy : PyVal → String
   | .str _ => "str" | .int _ => "int" | .bool _ => "bool" | .none => "none" | .bytes _ => "bytes"
-  | .tuple _ => "tuple" | .dict _ => "dict"
+  | .tuple _ => "tuple" | .dict _ => "dict" | .set _ => "set"
 
 structure St where
   sig : Sig := []
